@@ -650,6 +650,7 @@ func TestC03(t *testing.T) {
 		_ = a.Stop()
 	}
 	c03Edges(r)
+	c03HostLists(r)
 	r.Require("expected_match", r.Counter("expected_match"), int64(nRules))
 	r.Require("expected_no_match", r.Counter("expected_no_match"), int64(nRules))
 	r.End()
